@@ -290,8 +290,117 @@ def _n_enter_ctx():
     return globaling.ActionContextNames[globaling.ENTER]
 
 
+def _n_rframe(self_, frame):
+    own = self_._act.frame
+    return own if frame in ("", "me") else own.framer.frameNames.get(frame)
+
+
+def _n_mkey(self_, frame, marker):
+    rf = _n_rframe(self_, frame)
+    return None if rf is None else self_._act.frame.framer.name + "<" + (marker or rf.name)
+
+
+def _n_registered(kind):
+    from ioflo.base import acting
+    return kind in acting.Actor.Registry
+
+
+def _n_match(e, kind, share, key, by_name):
+    from ioflo.base import acting
+    if not (isinstance(e.actor, acting.Actor) and e.actor.name == kind):
+        return False
+    sh = e.parms.get("share")
+    if sh is None or e.parms.get("marker") != key:
+        return False
+    return sh.name == share.name if by_name else sh is share
+
+
+def _n_blank(mark):
+    return mark.stamp is None and mark.used is None and mark.data is None
+
+
 inserted_at.native = _n_inserted_at
 enter_ctx.native = _n_enter_ctx
+rframe.native = _n_rframe
+mkey.native = _n_mkey
+registered.native = _n_registered
+frame_known.native = lambda self_, frame: _n_rframe(self_, frame) is not None
+has_enact.native = lambda frame, kind, share, key: frame is not None and any(_n_match(e, kind, share, key, True)
+                                                                               for e in frame.enacts)
+is_marker_act.native = lambda act, kind, share, key: _n_match(act, kind, share, key, False)
+blank_new_mark.native = _n_blank
+
+_FLO = """house c20r
+
+  init c.x with 0
+  init c.y with 0
+
+  framer f be active first A
+
+    frame A
+      go B if c.x is updated in frame A by m1
+
+    frame B
+      go A if c.y is changed in frame
+"""
+_HOUSE = {}
+
+
+def _house():
+    """a real house built once per process by the real Builder (two frames, two shares, two marker conditions)"""
+    if not _HOUSE:
+        import os
+        import shutil
+        import tempfile
+        from ioflo.base import skedding
+        d = tempfile.mkdtemp(prefix="c20r-")
+        try:
+            path = os.path.join(d, "c20r.flo")
+            with open(path, "w") as f:
+                f.write(_FLO)
+            sk = skedding.Skedder(name="c20r", period=1.0, real=False, filepath=path)
+            try:
+                built = sk.build()
+            except Exception:
+                built = False
+            if not built:
+                # a tree on which the Builder itself cannot resolve a marker condition (e.g. a mutant that drops
+                # addTract): no native inputs for _resolve, the prover's verdict stands alone (inputs are skipped,
+                # visible as 0 evaluations for this function in the evidence)
+                _HOUSE["failed"] = True
+                return _HOUSE
+        finally:
+            shutil.rmtree(d, ignore_errors=True)
+        house = sk.houses[0]
+        framer = list(house.taskables)[0]
+        _HOUSE.update(store=house.store, framer=framer, frames=[framer.frameNames["A"], framer.frameNames["B"]])
+    return _HOUSE
+
+
+def _mk_resolve(rng, i, cex, nr):
+    import importlib
+    acting = importlib.import_module("ioflo.base.acting")
+    _shallow_old(acting)
+    h = _house()
+    if h.get("failed"):
+        return None
+    store = h["store"]
+    need = nr.mod.NeedUpdate(name="NeedUpdate", store=store)
+    need._act = acting.Act(actor=need, frame=rng.choice(h["frames"]), context="precur", human="h", count=i)
+    path = rng.choice(["c.x", "c.y"])
+    share = store.fetchShare(path)
+    for fr in h["frames"]:                       # the graph persists between runs: thin it out again at random
+        fr.enacts[:] = [e for e in fr.enacts if rng.random() < 0.6]
+    for k in list(share.marks.keys()):
+        if rng.random() < 0.4:
+            del share.marks[k]
+    return {"self": need, "share": path, "frame": rng.choice(["", "me", "A", "B", "A", "nope"]),
+            "kind": rng.choice(["MarkerUpdate", "MarkerChange", "MarkerUpdate", "Bogus"]),
+            "marker": rng.choice(["", "m1", "m2", "m3"]), "__store": store}
+
+
+def _view_resolve(env, nr):
+    return {"rshare": env["__store"].fetchShare(env["share"])}
 
 
 # ---------------------------------------------------------------- native doubles for the two helpers
@@ -299,10 +408,18 @@ class _Obj:
     pass
 
 
+def _shallow_old(acting):
+    """the native runner snapshots old(...) values with copy.deepcopy; acts are compared by IDENTITY in the list
+    clauses (and a real act drags its whole house, runner generators included), so in the cross-check process a
+    deep copy of an act is the act itself"""
+    acting.Act.__deepcopy__ = lambda self, memo: self
+
+
 def _mk_helper(which):
     def make(rng, i, cex, nr):
         import importlib
         acting = importlib.import_module("ioflo.base.acting")
+        _shallow_old(acting)
         act = acting.Act(actor="MarkerUpdate", parms={})
         olds = [acting.Act(actor="x%d" % k) for k in range(rng.randint(0, 3))]
         if which == "frame":
@@ -350,7 +467,7 @@ contract(FN, "NeedMarker._resolve", "C20",
          setup=_setup_rshare,
          loops={0: dict(inv=["not found", "no_enact_before(frame, kind, share, marker, _i)"])},
          modifies=["rshare.marks{*}", "self._tracts[*]", "%s.enacts[*]" % RF],
-         returns=Ref("OdictObj"),
+         returns=Ref("OdictObj"), replay=dict(make=_mk_resolve, view=_view_resolve),
          raises={"ResolveError": ["not registered(kind) or not frame_known(self, frame)",
                                   "seq_eq(self._tracts, oldlist(self._tracts))",
                                   "seq_eq(%s.enacts, oldlist(%s.enacts))" % ("self._act.frame", "self._act.frame")]},
@@ -360,7 +477,7 @@ contract(FN, "NeedMarker._resolve", "C20",
              "result['share'] is rshare", "result['marker'] == " + KEY,
              # (1) the Mark
              KEY + " in rshare.marks",
-             "implies(old(%s in rshare.marks), rshare.marks[%s] is old(rshare.marks[%s]))" % (KEY, KEY, KEY),
+             "implies(old(%s in rshare.marks), id(rshare.marks[%s]) == old(id(rshare.marks[%s])))" % (KEY, KEY, KEY),
              "implies(not old(%s in rshare.marks), blank_new_mark(rshare.marks[%s]))" % (KEY, KEY),
              "forall(STR, lambda k: implies(k != %s, (k in rshare.marks) == old(k in rshare.marks) and "
              "rshare.marks[k] is old(rshare.marks[k])))" % KEY,
@@ -374,7 +491,7 @@ contract(FN, "NeedMarker._resolve", "C20",
              "implies(frame != '' and not %s, inserted_at(%s.enacts, oldlist(%s.enacts), 0, %s.enacts[0]))"
              % (HAD, RF, RF, RF),
              "implies(frame != '' and not %s, is_marker_act(%s.enacts[0], kind, rshare, %s) and "
-             "%s.enacts[0].context == enter_ctx() and fresh(%s.enacts[0]) and %s.enacts[0] is not %s)"
-             % (HAD, RF, KEY, RF, RF, RF, LAST),
+             "%s.enacts[0].context == enter_ctx() and %s.enacts[0] is not %s)" % (HAD, RF, KEY, RF, RF, LAST),
+             "implies(frame != '' and not %s, fresh(%s.enacts[0]))" % (HAD, RF),
              "implies(frame == '', seq_eq(%s.enacts, oldlist(%s.enacts)))" % (RF, RF),
          ])
